@@ -14,16 +14,39 @@ MUTATORS = {"append", "remove", "insert", "extend", "pop", "clear", "update", "s
 
 
 def _eval_class(path: str, clsname: str, prelude: str = ""):
-    tree = ast.parse(open(path, encoding="utf-8").read())
+    """the class object `clsname` of the data module at `path`.  First the class statement alone (nothing else of the
+    module is executed); when the class body refers to module-level helpers (a table built by a function, constants
+    shared between classes) the whole module is executed in a scratch namespace instead - it is a pure data module
+    (dataclasses, enums, literals), it is not imported as part of the package and nothing of bigtree gets loaded."""
+    src = open(path, encoding="utf-8").read()
+    tree = ast.parse(src)
     for node in tree.body:
         if isinstance(node, ast.ClassDef) and node.name == clsname:
-            node.decorator_list = []
-            mod = ast.Module(body=[node], type_ignores=[])
-            ns: dict = {}
-            exec(prelude, ns)
-            exec(compile(ast.fix_missing_locations(mod), path, "exec"), ns)
-            return ns[clsname]
-    raise KeyError(clsname)
+            try:
+                only = ast.Module(body=[ast.ClassDef(name=node.name, bases=node.bases, keywords=node.keywords, body=node.body,
+                                                     decorator_list=[], **({"type_params": []} if hasattr(node, "type_params") else {}))],
+                                  type_ignores=[])
+                ns: dict = {}
+                exec(prelude, ns)
+                exec(compile(ast.fix_missing_locations(only), path, "exec"), ns)
+                return ns[clsname]
+            except Exception:
+                return getattr(_exec_module(path), clsname)
+    # the name may be bound differently (assignment, re-export): execute the module and look it up
+    return getattr(_exec_module(path), clsname)
+
+
+def _exec_module(path: str):
+    import importlib.util, sys
+    name = "_verif_tables_scratch"
+    spec = importlib.util.spec_from_file_location(name, path)
+    mod = importlib.util.module_from_spec(spec)
+    sys.modules[name] = mod          # dataclasses look their module up there
+    try:
+        spec.loader.exec_module(mod)
+    finally:
+        sys.modules.pop(name, None)
+    return mod
 
 
 def lean_str(s: str) -> str:
